@@ -72,7 +72,7 @@ def main():
     hs, st = apigen.bfs_transitions({'Depth': 3}, tag='selftest-bfs')
     seen = {a['a'] for hh in hs for a in hh}
     need = {'add_gate', 'remove_gate', 'rename_gate', 'mark_as_output', 'set_outputs', 'set_inputs', 'order_inputs', 'order_outputs',
-            'replace_inputs', 'make_block', 'delete_block', 'remove_block', 'connect', 'into_bench'}
+            'replace_inputs', 'make_block', 'delete_block', 'remove_block', 'connect', 'into_bench', 'replace_subcircuit'}
     print(f'  action coverage: {len(seen & need)}/{len(need)} actions occur in {len(hs)} emitted transitions; missing {sorted(need - seen)}')
     ok &= need <= seen
     print('SELFTEST', 'PASSED' if ok else 'FAILED')
